@@ -30,6 +30,9 @@ def run(ctx):
     w = vlib.run_tlc(ctx, "mc/MC_C09.tla", "mc/MC_C09_prefix.cfg", workers=4, timeout=600, keep_vec=False)
     if "NewestPublished" not in w.raw and "MapAgrees" not in w.raw and "NoDeadlock" not in w.raw:
         raise vlib.ToolError("MC_C09_prefix: the pre-repair protocol no longer violates any invariant - the model lost its teeth")
+    from checks import testrunstage
+    n_tr = testrunstage.run(ctx, "C09")
+    ctx.cov["evaluations"] = n + n_tr
     recs = vlib.read_ndjson(rec)
     fe = [x for x in recs if x["kind"] == "fe"]
     hist = [x for x in recs if x["kind"] == "hist"]
